@@ -3,6 +3,9 @@
 //! C14 (Tour part): inductive step. A tour is built by a concrete template (closed/open x k jobs), then ONE
 //! operation with symbolic choice of position / job is applied and the well-formedness invariant is re-checked.
 //! Any operation sequence is a chain of such steps. `Tour.jobs` is the list-backed set under cfg(kani).
+//!
+//! NOTE: these harnesses are NOT part of any registered check (annotation `props=C14-tour-dropped`): most of them exceed
+//! 16 GB / 420 s under CBMC (DESIGN.md section 10).  The claimed part of C14 is the registry half (mirsmt registry_step).
 use super::*;
 use crate::models::common::Dimensions;
 use crate::verif_support::*;
@@ -200,7 +203,7 @@ fn deep_copy_step<const K: usize>(closed: bool) {
     std::mem::forget((tour, copy, jobs, _job));
 }
 
-// @verif props=C14 tier=quick mem=medium ob=tour_step fn=Tour::insert_at,Tour::legs,Tour::index,Tour::job_activity_count,Tour::new bounds="closed tour template with 0 single-job activities, one insert with symbolic position/job choice (case-split concretely)" stubs="Arc::drop_slow := no-op"
+// @verif props=C14-tour-dropped tier=quick mem=medium ob=tour_step fn=Tour::insert_at,Tour::legs,Tour::index,Tour::job_activity_count,Tour::new bounds="closed tour template with 0 single-job activities, one insert with symbolic position/job choice (case-split concretely)" stubs="Arc::drop_slow := no-op"
 #[kani::proof]
 #[kani::unwind(8)]
 #[kani::stub(std::sync::Arc::drop_slow, crate::verif_support::arc_drop_noop)]
@@ -208,7 +211,7 @@ fn c14_insert_k0_closed() {
     insert_step::<0>(true);
 }
 
-// @verif props=C14 tier=quick mem=medium ob=tour_step fn=Tour::insert_at,Tour::legs,Tour::index,Tour::job_activity_count,Tour::new bounds="open tour template with 0 single-job activities, one insert with symbolic position/job choice (case-split concretely)" stubs="Arc::drop_slow := no-op"
+// @verif props=C14-tour-dropped tier=quick mem=medium ob=tour_step fn=Tour::insert_at,Tour::legs,Tour::index,Tour::job_activity_count,Tour::new bounds="open tour template with 0 single-job activities, one insert with symbolic position/job choice (case-split concretely)" stubs="Arc::drop_slow := no-op"
 #[kani::proof]
 #[kani::unwind(8)]
 #[kani::stub(std::sync::Arc::drop_slow, crate::verif_support::arc_drop_noop)]
@@ -216,7 +219,7 @@ fn c14_insert_k0_open() {
     insert_step::<0>(false);
 }
 
-// @verif props=C14 tier=quick mem=medium ob=tour_step fn=Tour::insert_at,Tour::legs,Tour::index,Tour::job_activity_count,Tour::new bounds="closed tour template with 1 single-job activities, one insert with symbolic position/job choice (case-split concretely)" stubs="Arc::drop_slow := no-op"
+// @verif props=C14-tour-dropped tier=quick mem=medium ob=tour_step fn=Tour::insert_at,Tour::legs,Tour::index,Tour::job_activity_count,Tour::new bounds="closed tour template with 1 single-job activities, one insert with symbolic position/job choice (case-split concretely)" stubs="Arc::drop_slow := no-op"
 #[kani::proof]
 #[kani::unwind(8)]
 #[kani::stub(std::sync::Arc::drop_slow, crate::verif_support::arc_drop_noop)]
@@ -224,7 +227,7 @@ fn c14_insert_k1_closed() {
     insert_step::<1>(true);
 }
 
-// @verif props=C14 tier=quick mem=medium ob=tour_step fn=Tour::insert_at,Tour::legs,Tour::index,Tour::job_activity_count,Tour::new bounds="open tour template with 1 single-job activities, one insert with symbolic position/job choice (case-split concretely)" stubs="Arc::drop_slow := no-op"
+// @verif props=C14-tour-dropped tier=quick mem=medium ob=tour_step fn=Tour::insert_at,Tour::legs,Tour::index,Tour::job_activity_count,Tour::new bounds="open tour template with 1 single-job activities, one insert with symbolic position/job choice (case-split concretely)" stubs="Arc::drop_slow := no-op"
 #[kani::proof]
 #[kani::unwind(8)]
 #[kani::stub(std::sync::Arc::drop_slow, crate::verif_support::arc_drop_noop)]
@@ -232,7 +235,7 @@ fn c14_insert_k1_open() {
     insert_step::<1>(false);
 }
 
-// @verif props=C14 tier=thorough mem=medium ob=tour_step fn=Tour::insert_at,Tour::legs,Tour::index,Tour::job_activity_count,Tour::new bounds="closed tour template with 2 single-job activities, one insert with symbolic position/job choice (case-split concretely)" stubs="Arc::drop_slow := no-op"
+// @verif props=C14-tour-dropped tier=thorough mem=medium ob=tour_step fn=Tour::insert_at,Tour::legs,Tour::index,Tour::job_activity_count,Tour::new bounds="closed tour template with 2 single-job activities, one insert with symbolic position/job choice (case-split concretely)" stubs="Arc::drop_slow := no-op"
 #[kani::proof]
 #[kani::unwind(8)]
 #[kani::stub(std::sync::Arc::drop_slow, crate::verif_support::arc_drop_noop)]
@@ -240,7 +243,7 @@ fn c14_insert_k2_closed() {
     insert_step::<2>(true);
 }
 
-// @verif props=C14 tier=thorough mem=medium ob=tour_step fn=Tour::insert_at,Tour::legs,Tour::index,Tour::job_activity_count,Tour::new bounds="open tour template with 2 single-job activities, one insert with symbolic position/job choice (case-split concretely)" stubs="Arc::drop_slow := no-op"
+// @verif props=C14-tour-dropped tier=thorough mem=medium ob=tour_step fn=Tour::insert_at,Tour::legs,Tour::index,Tour::job_activity_count,Tour::new bounds="open tour template with 2 single-job activities, one insert with symbolic position/job choice (case-split concretely)" stubs="Arc::drop_slow := no-op"
 #[kani::proof]
 #[kani::unwind(8)]
 #[kani::stub(std::sync::Arc::drop_slow, crate::verif_support::arc_drop_noop)]
@@ -248,7 +251,7 @@ fn c14_insert_k2_open() {
     insert_step::<2>(false);
 }
 
-// @verif props=C14 tier=thorough mem=medium ob=tour_step fn=Tour::insert_at,Tour::legs,Tour::index,Tour::job_activity_count,Tour::new bounds="closed tour template with 3 single-job activities, one insert with symbolic position/job choice (case-split concretely)" stubs="Arc::drop_slow := no-op"
+// @verif props=C14-tour-dropped tier=thorough mem=medium ob=tour_step fn=Tour::insert_at,Tour::legs,Tour::index,Tour::job_activity_count,Tour::new bounds="closed tour template with 3 single-job activities, one insert with symbolic position/job choice (case-split concretely)" stubs="Arc::drop_slow := no-op"
 #[kani::proof]
 #[kani::unwind(8)]
 #[kani::stub(std::sync::Arc::drop_slow, crate::verif_support::arc_drop_noop)]
@@ -256,7 +259,7 @@ fn c14_insert_k3_closed() {
     insert_step::<3>(true);
 }
 
-// @verif props=C14 tier=thorough mem=medium ob=tour_step fn=Tour::insert_at,Tour::legs,Tour::index,Tour::job_activity_count,Tour::new bounds="open tour template with 3 single-job activities, one insert with symbolic position/job choice (case-split concretely)" stubs="Arc::drop_slow := no-op"
+// @verif props=C14-tour-dropped tier=thorough mem=medium ob=tour_step fn=Tour::insert_at,Tour::legs,Tour::index,Tour::job_activity_count,Tour::new bounds="open tour template with 3 single-job activities, one insert with symbolic position/job choice (case-split concretely)" stubs="Arc::drop_slow := no-op"
 #[kani::proof]
 #[kani::unwind(8)]
 #[kani::stub(std::sync::Arc::drop_slow, crate::verif_support::arc_drop_noop)]
@@ -264,7 +267,7 @@ fn c14_insert_k3_open() {
     insert_step::<3>(false);
 }
 
-// @verif props=C14 tier=quick mem=medium ob=tour_step fn=Tour::insert_last,Tour::insert_at,Tour::new bounds="closed tour template with 0 single-job activities, one insert_last with symbolic position/job choice (case-split concretely)" stubs="Arc::drop_slow := no-op"
+// @verif props=C14-tour-dropped tier=quick mem=medium ob=tour_step fn=Tour::insert_last,Tour::insert_at,Tour::new bounds="closed tour template with 0 single-job activities, one insert_last with symbolic position/job choice (case-split concretely)" stubs="Arc::drop_slow := no-op"
 #[kani::proof]
 #[kani::unwind(8)]
 #[kani::stub(std::sync::Arc::drop_slow, crate::verif_support::arc_drop_noop)]
@@ -272,7 +275,7 @@ fn c14_insert_last_k0_closed() {
     insert_last_step::<0>(true);
 }
 
-// @verif props=C14 tier=quick mem=medium ob=tour_step fn=Tour::insert_last,Tour::insert_at,Tour::new bounds="open tour template with 0 single-job activities, one insert_last with symbolic position/job choice (case-split concretely)" stubs="Arc::drop_slow := no-op"
+// @verif props=C14-tour-dropped tier=quick mem=medium ob=tour_step fn=Tour::insert_last,Tour::insert_at,Tour::new bounds="open tour template with 0 single-job activities, one insert_last with symbolic position/job choice (case-split concretely)" stubs="Arc::drop_slow := no-op"
 #[kani::proof]
 #[kani::unwind(8)]
 #[kani::stub(std::sync::Arc::drop_slow, crate::verif_support::arc_drop_noop)]
@@ -280,7 +283,7 @@ fn c14_insert_last_k0_open() {
     insert_last_step::<0>(false);
 }
 
-// @verif props=C14 tier=quick mem=medium ob=tour_step fn=Tour::insert_last,Tour::insert_at,Tour::new bounds="closed tour template with 1 single-job activities, one insert_last with symbolic position/job choice (case-split concretely)" stubs="Arc::drop_slow := no-op"
+// @verif props=C14-tour-dropped tier=quick mem=medium ob=tour_step fn=Tour::insert_last,Tour::insert_at,Tour::new bounds="closed tour template with 1 single-job activities, one insert_last with symbolic position/job choice (case-split concretely)" stubs="Arc::drop_slow := no-op"
 #[kani::proof]
 #[kani::unwind(8)]
 #[kani::stub(std::sync::Arc::drop_slow, crate::verif_support::arc_drop_noop)]
@@ -288,7 +291,7 @@ fn c14_insert_last_k1_closed() {
     insert_last_step::<1>(true);
 }
 
-// @verif props=C14 tier=quick mem=medium ob=tour_step fn=Tour::insert_last,Tour::insert_at,Tour::new bounds="open tour template with 1 single-job activities, one insert_last with symbolic position/job choice (case-split concretely)" stubs="Arc::drop_slow := no-op"
+// @verif props=C14-tour-dropped tier=quick mem=medium ob=tour_step fn=Tour::insert_last,Tour::insert_at,Tour::new bounds="open tour template with 1 single-job activities, one insert_last with symbolic position/job choice (case-split concretely)" stubs="Arc::drop_slow := no-op"
 #[kani::proof]
 #[kani::unwind(8)]
 #[kani::stub(std::sync::Arc::drop_slow, crate::verif_support::arc_drop_noop)]
@@ -296,7 +299,7 @@ fn c14_insert_last_k1_open() {
     insert_last_step::<1>(false);
 }
 
-// @verif props=C14 tier=thorough mem=medium ob=tour_step fn=Tour::insert_last,Tour::insert_at,Tour::new bounds="closed tour template with 2 single-job activities, one insert_last with symbolic position/job choice (case-split concretely)" stubs="Arc::drop_slow := no-op"
+// @verif props=C14-tour-dropped tier=thorough mem=medium ob=tour_step fn=Tour::insert_last,Tour::insert_at,Tour::new bounds="closed tour template with 2 single-job activities, one insert_last with symbolic position/job choice (case-split concretely)" stubs="Arc::drop_slow := no-op"
 #[kani::proof]
 #[kani::unwind(8)]
 #[kani::stub(std::sync::Arc::drop_slow, crate::verif_support::arc_drop_noop)]
@@ -304,7 +307,7 @@ fn c14_insert_last_k2_closed() {
     insert_last_step::<2>(true);
 }
 
-// @verif props=C14 tier=thorough mem=medium ob=tour_step fn=Tour::insert_last,Tour::insert_at,Tour::new bounds="open tour template with 2 single-job activities, one insert_last with symbolic position/job choice (case-split concretely)" stubs="Arc::drop_slow := no-op"
+// @verif props=C14-tour-dropped tier=thorough mem=medium ob=tour_step fn=Tour::insert_last,Tour::insert_at,Tour::new bounds="open tour template with 2 single-job activities, one insert_last with symbolic position/job choice (case-split concretely)" stubs="Arc::drop_slow := no-op"
 #[kani::proof]
 #[kani::unwind(8)]
 #[kani::stub(std::sync::Arc::drop_slow, crate::verif_support::arc_drop_noop)]
@@ -312,7 +315,7 @@ fn c14_insert_last_k2_open() {
     insert_last_step::<2>(false);
 }
 
-// @verif props=C14 tier=thorough mem=medium ob=tour_step fn=Tour::insert_last,Tour::insert_at,Tour::new bounds="closed tour template with 3 single-job activities, one insert_last with symbolic position/job choice (case-split concretely)" stubs="Arc::drop_slow := no-op"
+// @verif props=C14-tour-dropped tier=thorough mem=medium ob=tour_step fn=Tour::insert_last,Tour::insert_at,Tour::new bounds="closed tour template with 3 single-job activities, one insert_last with symbolic position/job choice (case-split concretely)" stubs="Arc::drop_slow := no-op"
 #[kani::proof]
 #[kani::unwind(8)]
 #[kani::stub(std::sync::Arc::drop_slow, crate::verif_support::arc_drop_noop)]
@@ -320,7 +323,7 @@ fn c14_insert_last_k3_closed() {
     insert_last_step::<3>(true);
 }
 
-// @verif props=C14 tier=thorough mem=medium ob=tour_step fn=Tour::insert_last,Tour::insert_at,Tour::new bounds="open tour template with 3 single-job activities, one insert_last with symbolic position/job choice (case-split concretely)" stubs="Arc::drop_slow := no-op"
+// @verif props=C14-tour-dropped tier=thorough mem=medium ob=tour_step fn=Tour::insert_last,Tour::insert_at,Tour::new bounds="open tour template with 3 single-job activities, one insert_last with symbolic position/job choice (case-split concretely)" stubs="Arc::drop_slow := no-op"
 #[kani::proof]
 #[kani::unwind(8)]
 #[kani::stub(std::sync::Arc::drop_slow, crate::verif_support::arc_drop_noop)]
@@ -328,7 +331,7 @@ fn c14_insert_last_k3_open() {
     insert_last_step::<3>(false);
 }
 
-// @verif props=C14 tier=quick mem=medium ob=tour_step fn=Tour::remove,Tour::contains,Tour::new bounds="closed tour template with 0 single-job activities, one remove with symbolic position/job choice (case-split concretely)" stubs="Arc::drop_slow := no-op"
+// @verif props=C14-tour-dropped tier=quick mem=medium ob=tour_step fn=Tour::remove,Tour::contains,Tour::new bounds="closed tour template with 0 single-job activities, one remove with symbolic position/job choice (case-split concretely)" stubs="Arc::drop_slow := no-op"
 #[kani::proof]
 #[kani::unwind(8)]
 #[kani::stub(std::sync::Arc::drop_slow, crate::verif_support::arc_drop_noop)]
@@ -336,7 +339,7 @@ fn c14_remove_k0_closed() {
     remove_step::<0>(true);
 }
 
-// @verif props=C14 tier=quick mem=medium ob=tour_step fn=Tour::remove,Tour::contains,Tour::new bounds="open tour template with 0 single-job activities, one remove with symbolic position/job choice (case-split concretely)" stubs="Arc::drop_slow := no-op"
+// @verif props=C14-tour-dropped tier=quick mem=medium ob=tour_step fn=Tour::remove,Tour::contains,Tour::new bounds="open tour template with 0 single-job activities, one remove with symbolic position/job choice (case-split concretely)" stubs="Arc::drop_slow := no-op"
 #[kani::proof]
 #[kani::unwind(8)]
 #[kani::stub(std::sync::Arc::drop_slow, crate::verif_support::arc_drop_noop)]
@@ -344,7 +347,7 @@ fn c14_remove_k0_open() {
     remove_step::<0>(false);
 }
 
-// @verif props=C14 tier=quick mem=medium ob=tour_step fn=Tour::remove,Tour::contains,Tour::new bounds="closed tour template with 1 single-job activities, one remove with symbolic position/job choice (case-split concretely)" stubs="Arc::drop_slow := no-op"
+// @verif props=C14-tour-dropped tier=quick mem=medium ob=tour_step fn=Tour::remove,Tour::contains,Tour::new bounds="closed tour template with 1 single-job activities, one remove with symbolic position/job choice (case-split concretely)" stubs="Arc::drop_slow := no-op"
 #[kani::proof]
 #[kani::unwind(8)]
 #[kani::stub(std::sync::Arc::drop_slow, crate::verif_support::arc_drop_noop)]
@@ -352,7 +355,7 @@ fn c14_remove_k1_closed() {
     remove_step::<1>(true);
 }
 
-// @verif props=C14 tier=quick mem=medium ob=tour_step fn=Tour::remove,Tour::contains,Tour::new bounds="open tour template with 1 single-job activities, one remove with symbolic position/job choice (case-split concretely)" stubs="Arc::drop_slow := no-op"
+// @verif props=C14-tour-dropped tier=quick mem=medium ob=tour_step fn=Tour::remove,Tour::contains,Tour::new bounds="open tour template with 1 single-job activities, one remove with symbolic position/job choice (case-split concretely)" stubs="Arc::drop_slow := no-op"
 #[kani::proof]
 #[kani::unwind(8)]
 #[kani::stub(std::sync::Arc::drop_slow, crate::verif_support::arc_drop_noop)]
@@ -360,7 +363,7 @@ fn c14_remove_k1_open() {
     remove_step::<1>(false);
 }
 
-// @verif props=C14 tier=thorough mem=medium ob=tour_step fn=Tour::remove,Tour::contains,Tour::new bounds="closed tour template with 2 single-job activities, one remove with symbolic position/job choice (case-split concretely)" stubs="Arc::drop_slow := no-op"
+// @verif props=C14-tour-dropped tier=thorough mem=medium ob=tour_step fn=Tour::remove,Tour::contains,Tour::new bounds="closed tour template with 2 single-job activities, one remove with symbolic position/job choice (case-split concretely)" stubs="Arc::drop_slow := no-op"
 #[kani::proof]
 #[kani::unwind(8)]
 #[kani::stub(std::sync::Arc::drop_slow, crate::verif_support::arc_drop_noop)]
@@ -368,7 +371,7 @@ fn c14_remove_k2_closed() {
     remove_step::<2>(true);
 }
 
-// @verif props=C14 tier=thorough mem=medium ob=tour_step fn=Tour::remove,Tour::contains,Tour::new bounds="open tour template with 2 single-job activities, one remove with symbolic position/job choice (case-split concretely)" stubs="Arc::drop_slow := no-op"
+// @verif props=C14-tour-dropped tier=thorough mem=medium ob=tour_step fn=Tour::remove,Tour::contains,Tour::new bounds="open tour template with 2 single-job activities, one remove with symbolic position/job choice (case-split concretely)" stubs="Arc::drop_slow := no-op"
 #[kani::proof]
 #[kani::unwind(8)]
 #[kani::stub(std::sync::Arc::drop_slow, crate::verif_support::arc_drop_noop)]
@@ -376,7 +379,7 @@ fn c14_remove_k2_open() {
     remove_step::<2>(false);
 }
 
-// @verif props=C14 tier=thorough mem=medium ob=tour_step fn=Tour::remove,Tour::contains,Tour::new bounds="closed tour template with 3 single-job activities, one remove with symbolic position/job choice (case-split concretely)" stubs="Arc::drop_slow := no-op"
+// @verif props=C14-tour-dropped tier=thorough mem=medium ob=tour_step fn=Tour::remove,Tour::contains,Tour::new bounds="closed tour template with 3 single-job activities, one remove with symbolic position/job choice (case-split concretely)" stubs="Arc::drop_slow := no-op"
 #[kani::proof]
 #[kani::unwind(8)]
 #[kani::stub(std::sync::Arc::drop_slow, crate::verif_support::arc_drop_noop)]
@@ -384,7 +387,7 @@ fn c14_remove_k3_closed() {
     remove_step::<3>(true);
 }
 
-// @verif props=C14 tier=thorough mem=medium ob=tour_step fn=Tour::remove,Tour::contains,Tour::new bounds="open tour template with 3 single-job activities, one remove with symbolic position/job choice (case-split concretely)" stubs="Arc::drop_slow := no-op"
+// @verif props=C14-tour-dropped tier=thorough mem=medium ob=tour_step fn=Tour::remove,Tour::contains,Tour::new bounds="open tour template with 3 single-job activities, one remove with symbolic position/job choice (case-split concretely)" stubs="Arc::drop_slow := no-op"
 #[kani::proof]
 #[kani::unwind(8)]
 #[kani::stub(std::sync::Arc::drop_slow, crate::verif_support::arc_drop_noop)]
@@ -392,7 +395,7 @@ fn c14_remove_k3_open() {
     remove_step::<3>(false);
 }
 
-// @verif props=C14 tier=quick mem=medium ob=tour_step fn=Tour::remove_activity_at,Tour::remove,Tour::new bounds="closed tour template with 1 single-job activities, one remove_at with symbolic position/job choice (case-split concretely)" stubs="Arc::drop_slow := no-op"
+// @verif props=C14-tour-dropped tier=quick mem=medium ob=tour_step fn=Tour::remove_activity_at,Tour::remove,Tour::new bounds="closed tour template with 1 single-job activities, one remove_at with symbolic position/job choice (case-split concretely)" stubs="Arc::drop_slow := no-op"
 #[kani::proof]
 #[kani::unwind(8)]
 #[kani::stub(std::sync::Arc::drop_slow, crate::verif_support::arc_drop_noop)]
@@ -400,7 +403,7 @@ fn c14_remove_at_k1_closed() {
     remove_at_step::<1>(true);
 }
 
-// @verif props=C14 tier=quick mem=medium ob=tour_step fn=Tour::remove_activity_at,Tour::remove,Tour::new bounds="open tour template with 1 single-job activities, one remove_at with symbolic position/job choice (case-split concretely)" stubs="Arc::drop_slow := no-op"
+// @verif props=C14-tour-dropped tier=quick mem=medium ob=tour_step fn=Tour::remove_activity_at,Tour::remove,Tour::new bounds="open tour template with 1 single-job activities, one remove_at with symbolic position/job choice (case-split concretely)" stubs="Arc::drop_slow := no-op"
 #[kani::proof]
 #[kani::unwind(8)]
 #[kani::stub(std::sync::Arc::drop_slow, crate::verif_support::arc_drop_noop)]
@@ -408,7 +411,7 @@ fn c14_remove_at_k1_open() {
     remove_at_step::<1>(false);
 }
 
-// @verif props=C14 tier=thorough mem=medium ob=tour_step fn=Tour::remove_activity_at,Tour::remove,Tour::new bounds="closed tour template with 2 single-job activities, one remove_at with symbolic position/job choice (case-split concretely)" stubs="Arc::drop_slow := no-op"
+// @verif props=C14-tour-dropped tier=thorough mem=medium ob=tour_step fn=Tour::remove_activity_at,Tour::remove,Tour::new bounds="closed tour template with 2 single-job activities, one remove_at with symbolic position/job choice (case-split concretely)" stubs="Arc::drop_slow := no-op"
 #[kani::proof]
 #[kani::unwind(8)]
 #[kani::stub(std::sync::Arc::drop_slow, crate::verif_support::arc_drop_noop)]
@@ -416,7 +419,7 @@ fn c14_remove_at_k2_closed() {
     remove_at_step::<2>(true);
 }
 
-// @verif props=C14 tier=thorough mem=medium ob=tour_step fn=Tour::remove_activity_at,Tour::remove,Tour::new bounds="open tour template with 2 single-job activities, one remove_at with symbolic position/job choice (case-split concretely)" stubs="Arc::drop_slow := no-op"
+// @verif props=C14-tour-dropped tier=thorough mem=medium ob=tour_step fn=Tour::remove_activity_at,Tour::remove,Tour::new bounds="open tour template with 2 single-job activities, one remove_at with symbolic position/job choice (case-split concretely)" stubs="Arc::drop_slow := no-op"
 #[kani::proof]
 #[kani::unwind(8)]
 #[kani::stub(std::sync::Arc::drop_slow, crate::verif_support::arc_drop_noop)]
@@ -424,7 +427,7 @@ fn c14_remove_at_k2_open() {
     remove_at_step::<2>(false);
 }
 
-// @verif props=C14 tier=thorough mem=medium ob=tour_step fn=Tour::remove_activity_at,Tour::remove,Tour::new bounds="closed tour template with 3 single-job activities, one remove_at with symbolic position/job choice (case-split concretely)" stubs="Arc::drop_slow := no-op"
+// @verif props=C14-tour-dropped tier=thorough mem=medium ob=tour_step fn=Tour::remove_activity_at,Tour::remove,Tour::new bounds="closed tour template with 3 single-job activities, one remove_at with symbolic position/job choice (case-split concretely)" stubs="Arc::drop_slow := no-op"
 #[kani::proof]
 #[kani::unwind(8)]
 #[kani::stub(std::sync::Arc::drop_slow, crate::verif_support::arc_drop_noop)]
@@ -432,7 +435,7 @@ fn c14_remove_at_k3_closed() {
     remove_at_step::<3>(true);
 }
 
-// @verif props=C14 tier=thorough mem=medium ob=tour_step fn=Tour::remove_activity_at,Tour::remove,Tour::new bounds="open tour template with 3 single-job activities, one remove_at with symbolic position/job choice (case-split concretely)" stubs="Arc::drop_slow := no-op"
+// @verif props=C14-tour-dropped tier=thorough mem=medium ob=tour_step fn=Tour::remove_activity_at,Tour::remove,Tour::new bounds="open tour template with 3 single-job activities, one remove_at with symbolic position/job choice (case-split concretely)" stubs="Arc::drop_slow := no-op"
 #[kani::proof]
 #[kani::unwind(8)]
 #[kani::stub(std::sync::Arc::drop_slow, crate::verif_support::arc_drop_noop)]
@@ -440,7 +443,7 @@ fn c14_remove_at_k3_open() {
     remove_at_step::<3>(false);
 }
 
-// @verif props=C14 tier=quick mem=medium ob=tour_step fn=Tour::deep_copy,Activity::deep_copy,Tour::new bounds="closed tour template with 0 single-job activities, one deep_copy with symbolic position/job choice (case-split concretely)" stubs="Arc::drop_slow := no-op"
+// @verif props=C14-tour-dropped tier=quick mem=medium ob=tour_step fn=Tour::deep_copy,Activity::deep_copy,Tour::new bounds="closed tour template with 0 single-job activities, one deep_copy with symbolic position/job choice (case-split concretely)" stubs="Arc::drop_slow := no-op"
 #[kani::proof]
 #[kani::unwind(8)]
 #[kani::stub(std::sync::Arc::drop_slow, crate::verif_support::arc_drop_noop)]
@@ -448,7 +451,7 @@ fn c14_deep_copy_k0_closed() {
     deep_copy_step::<0>(true);
 }
 
-// @verif props=C14 tier=quick mem=medium ob=tour_step fn=Tour::deep_copy,Activity::deep_copy,Tour::new bounds="open tour template with 0 single-job activities, one deep_copy with symbolic position/job choice (case-split concretely)" stubs="Arc::drop_slow := no-op"
+// @verif props=C14-tour-dropped tier=quick mem=medium ob=tour_step fn=Tour::deep_copy,Activity::deep_copy,Tour::new bounds="open tour template with 0 single-job activities, one deep_copy with symbolic position/job choice (case-split concretely)" stubs="Arc::drop_slow := no-op"
 #[kani::proof]
 #[kani::unwind(8)]
 #[kani::stub(std::sync::Arc::drop_slow, crate::verif_support::arc_drop_noop)]
@@ -456,7 +459,7 @@ fn c14_deep_copy_k0_open() {
     deep_copy_step::<0>(false);
 }
 
-// @verif props=C14 tier=quick mem=medium ob=tour_step fn=Tour::deep_copy,Activity::deep_copy,Tour::new bounds="closed tour template with 1 single-job activities, one deep_copy with symbolic position/job choice (case-split concretely)" stubs="Arc::drop_slow := no-op"
+// @verif props=C14-tour-dropped tier=quick mem=medium ob=tour_step fn=Tour::deep_copy,Activity::deep_copy,Tour::new bounds="closed tour template with 1 single-job activities, one deep_copy with symbolic position/job choice (case-split concretely)" stubs="Arc::drop_slow := no-op"
 #[kani::proof]
 #[kani::unwind(8)]
 #[kani::stub(std::sync::Arc::drop_slow, crate::verif_support::arc_drop_noop)]
@@ -464,7 +467,7 @@ fn c14_deep_copy_k1_closed() {
     deep_copy_step::<1>(true);
 }
 
-// @verif props=C14 tier=quick mem=medium ob=tour_step fn=Tour::deep_copy,Activity::deep_copy,Tour::new bounds="open tour template with 1 single-job activities, one deep_copy with symbolic position/job choice (case-split concretely)" stubs="Arc::drop_slow := no-op"
+// @verif props=C14-tour-dropped tier=quick mem=medium ob=tour_step fn=Tour::deep_copy,Activity::deep_copy,Tour::new bounds="open tour template with 1 single-job activities, one deep_copy with symbolic position/job choice (case-split concretely)" stubs="Arc::drop_slow := no-op"
 #[kani::proof]
 #[kani::unwind(8)]
 #[kani::stub(std::sync::Arc::drop_slow, crate::verif_support::arc_drop_noop)]
@@ -472,7 +475,7 @@ fn c14_deep_copy_k1_open() {
     deep_copy_step::<1>(false);
 }
 
-// @verif props=C14 tier=thorough mem=medium ob=tour_step fn=Tour::deep_copy,Activity::deep_copy,Tour::new bounds="closed tour template with 2 single-job activities, one deep_copy with symbolic position/job choice (case-split concretely)" stubs="Arc::drop_slow := no-op"
+// @verif props=C14-tour-dropped tier=thorough mem=medium ob=tour_step fn=Tour::deep_copy,Activity::deep_copy,Tour::new bounds="closed tour template with 2 single-job activities, one deep_copy with symbolic position/job choice (case-split concretely)" stubs="Arc::drop_slow := no-op"
 #[kani::proof]
 #[kani::unwind(8)]
 #[kani::stub(std::sync::Arc::drop_slow, crate::verif_support::arc_drop_noop)]
@@ -480,7 +483,7 @@ fn c14_deep_copy_k2_closed() {
     deep_copy_step::<2>(true);
 }
 
-// @verif props=C14 tier=thorough mem=medium ob=tour_step fn=Tour::deep_copy,Activity::deep_copy,Tour::new bounds="open tour template with 2 single-job activities, one deep_copy with symbolic position/job choice (case-split concretely)" stubs="Arc::drop_slow := no-op"
+// @verif props=C14-tour-dropped tier=thorough mem=medium ob=tour_step fn=Tour::deep_copy,Activity::deep_copy,Tour::new bounds="open tour template with 2 single-job activities, one deep_copy with symbolic position/job choice (case-split concretely)" stubs="Arc::drop_slow := no-op"
 #[kani::proof]
 #[kani::unwind(8)]
 #[kani::stub(std::sync::Arc::drop_slow, crate::verif_support::arc_drop_noop)]
@@ -488,7 +491,7 @@ fn c14_deep_copy_k2_open() {
     deep_copy_step::<2>(false);
 }
 
-// @verif props=C14 tier=thorough mem=medium ob=tour_step fn=Tour::deep_copy,Activity::deep_copy,Tour::new bounds="closed tour template with 3 single-job activities, one deep_copy with symbolic position/job choice (case-split concretely)" stubs="Arc::drop_slow := no-op"
+// @verif props=C14-tour-dropped tier=thorough mem=medium ob=tour_step fn=Tour::deep_copy,Activity::deep_copy,Tour::new bounds="closed tour template with 3 single-job activities, one deep_copy with symbolic position/job choice (case-split concretely)" stubs="Arc::drop_slow := no-op"
 #[kani::proof]
 #[kani::unwind(8)]
 #[kani::stub(std::sync::Arc::drop_slow, crate::verif_support::arc_drop_noop)]
@@ -496,7 +499,7 @@ fn c14_deep_copy_k3_closed() {
     deep_copy_step::<3>(true);
 }
 
-// @verif props=C14 tier=thorough mem=medium ob=tour_step fn=Tour::deep_copy,Activity::deep_copy,Tour::new bounds="open tour template with 3 single-job activities, one deep_copy with symbolic position/job choice (case-split concretely)" stubs="Arc::drop_slow := no-op"
+// @verif props=C14-tour-dropped tier=thorough mem=medium ob=tour_step fn=Tour::deep_copy,Activity::deep_copy,Tour::new bounds="open tour template with 3 single-job activities, one deep_copy with symbolic position/job choice (case-split concretely)" stubs="Arc::drop_slow := no-op"
 #[kani::proof]
 #[kani::unwind(8)]
 #[kani::stub(std::sync::Arc::drop_slow, crate::verif_support::arc_drop_noop)]
